@@ -388,7 +388,9 @@ def _race(case: dict) -> dict:
                 continue
             # the delivery this execution belongs to (task bodies run on pool threads: tie by task id and time);
             # a handler that was polled BEFORE the result was recorded is still the step in flight
-            mine = sorted((d for d in records if d["type"] == "RunTask" and d.get("task_id") == tid and d["post_poll_seq"] <= r["seq"]), key=lambda d: d["post_poll_seq"])
+            # (only deliveries that entered the handler can have executed anything: one that was polled later and
+            # acknowledged as a duplicate must not be taken for the executing one)
+            mine = sorted((d for d in records if d["type"] == "RunTask" and d.get("task_id") == tid and d["post_poll_seq"] <= r["seq"] and d.get("handled", True)), key=lambda d: d["post_poll_seq"])
             if mine and mine[-1]["pre_seq"] >= rec[0]:
                 v.append(viol("C02/executed-again-after-result-recorded", f"{r['ref']}.t{r['task']}@{r['iter']} executed by a RunTask delivery polled at seq >= {mine[-1]['pre_seq']}, after the result of an earlier execution had been recorded (CompleteTask pushed at seq {rec[0]})"))
                 break
@@ -665,7 +667,9 @@ def run_case(case: dict) -> dict:
         inj = None
         if s.get("dup"):
             rng = random.Random(s["seed"])
-            refs = [x["ref"] for x in spec["stages"]]
+            # duplicate StartStage nudges (what fan-in completions and recovery legitimately produce) - not for the
+            # conditional branches of an OR-split, where a StartStage is the routing decision itself
+            refs = [x["ref"] for x in spec["stages"] if x["ref"] not in specs.or_branch_refs(spec)] or [spec["stages"][0]["ref"]]
             inj = [{"at": rng.randrange(1, max(2, ref.steps)), "do": "dup_start", "ref": rng.choice(refs)} for _ in range(2)]
         run = delivery_run(spec, seed=s["seed"], order=s["order"], noack_p=s.get("noack_p", 0.0), hold=s.get("hold"), injections=inj, max_steps=budget)
         obs["evaluations"] += 1
